@@ -184,6 +184,9 @@ func (e *Encoder) writeValue(val reflect.Value, tagType byte) error {
 
 		for i := 0; i < val.Len(); i++ {
 			arrType, arrVal := getTagType(val.Index(i))
+			if arrType != eleType {
+				return fmt.Errorf("list of Tag 0x%02x has an element of Tag 0x%02x at index %d", eleType, arrType, i)
+			}
 			err := e.marshal(arrVal, arrType)
 			if err != nil {
 				return err
